@@ -106,7 +106,7 @@ def cmdMangle (payload : String) : String :=
   match payload.splitOn " " with
   | [m, n, c] =>
     match (Sexp.atom m).asStr?, (Sexp.atom n).asStr?, c.toNat? with
-    | some m, some n, some c => s!"FIXED={Sexp.hexOfString (mangleVarFixed m n c)} | UNFIXED={Sexp.hexOfString (mangleVarUnfixed m n c)}"
+    | some m, some n, some c => s!"FIXED={Sexp.hexOfString (mangleVarFixed m n c)} | UNFIXED={Sexp.hexOfString (mangleVarUnfixed m n c)} | FNFIXED={Sexp.hexOfString (mangleFnFixed m n)} | FNUNFIXED={Sexp.hexOfString (mangleFnUnfixed m n)}"
     | _, _, _ => "BAD-INPUT"
   | _ => "BAD-INPUT"
 
